@@ -59,35 +59,43 @@ def install(prog):
     def b_url_eq(ctx, a, callee):
         return D(a[0]).fields[0] == D(a[1]).fields[0]
 
+    def _no_trailing_slash(comps):
+        comps = tuple(comps)
+        while comps and comps[-1] == '':
+            comps = comps[:-1]
+        return comps
+
     @B('Path::join')
     def b_path_join(ctx, a, callee):
         p = to_path(a[0])
         q = to_path(a[1])
         if q.absolute:
             return q
-        return PathV(p.absolute, p.comps + q.comps)
+        return PathV(p.absolute, _no_trailing_slash(p.comps) + q.comps)
 
     @B('PathBuf::push')
     def b_path_push(ctx, a, callee):
         p = to_path(R(a[0]).load())
         q = to_path(a[1])
-        R(a[0]).store(q if q.absolute else PathV(p.absolute, p.comps + q.comps))
+        R(a[0]).store(q if q.absolute else PathV(p.absolute, _no_trailing_slash(p.comps) + q.comps))
         return UNIT
 
     @B('PathBuf::pop')
     def b_path_pop(ctx, a, callee):
         p = to_path(R(a[0]).load())
-        if not p.comps:
+        c = p.trimmed()
+        if not c:
             return False
-        R(a[0]).store(PathV(p.absolute, p.comps[:-1]))
+        R(a[0]).store(PathV(p.absolute, c[:-1]))
         return True
 
     @B('Path::parent')
     def b_path_parent(ctx, a, callee):
         p = to_path(a[0])
-        if not p.comps:
+        c = p.trimmed()
+        if not c:
             return NONE
-        return some(PathV(p.absolute, p.comps[:-1]))
+        return some(PathV(p.absolute, c[:-1]))
 
     @B('Path::is_relative')
     def b_is_relative(ctx, a, callee):
@@ -117,14 +125,16 @@ def install(prog):
     def b_path_starts_with(ctx, a, callee):
         p = to_path(a[0])
         q = to_path(a[1])
-        return p.absolute == q.absolute and p.comps[:len(q.comps)] == q.comps
+        pc, qc = p.canon(), q.canon()
+        return p.absolute == q.absolute and pc[:len(qc)] == qc
 
     @B('Path::file_name', 'Path::extension', 'Path::file_stem')
     def b_file_name(ctx, a, callee):
         p = to_path(a[0])
-        if not p.comps or p.comps[-1] == '..':
+        c = p.trimmed()
+        if not c or c[-1] == '..':
             return NONE
-        name = p.comps[-1]
+        name = c[-1]
         if callee.endswith('file_name'):
             return some(name)
         if '.' in name[1:]:
@@ -141,9 +151,10 @@ def install(prog):
         name = D(a[1])
         if type(name) is PathV:
             name = name.to_str()
-        if not p.comps:
+        c = p.trimmed()
+        if not c:
             return PathV(p.absolute, (name,))
-        return PathV(p.absolute, p.comps[:-1] + (name,))
+        return PathV(p.absolute, c[:-1] + (name,))
 
     @B('<OsStr as Default>::default', '<&OsStr as Default>::default')
     def b_osstr_default(ctx, a, callee):
@@ -153,12 +164,13 @@ def install(prog):
     def b_with_extension(ctx, a, callee):
         p = to_path(a[0])
         ext = D(a[1])
-        if not p.comps:
+        c = p.trimmed()
+        if not c or c[-1] == '..':
             return p
-        name = p.comps[-1]
+        name = c[-1]
         stem = name.rsplit('.', 1)[0] if '.' in name[1:] else name
         new = stem + ('.' + ext if ext else '')
-        return PathV(p.absolute, p.comps[:-1] + (new,))
+        return PathV(p.absolute, c[:-1] + (new,))
 
     @B('PathBuf::set_extension')
     def b_set_extension(ctx, a, callee):
@@ -173,6 +185,8 @@ def install(prog):
         if p.absolute:
             comps.append(Agg('Component', 1, ()))            # RootDir
         for i, c in enumerate(p.comps):
+            if c == '':
+                continue                                     # doubled or trailing slash
             if c == '.':
                 if i == 0 and not p.absolute:
                     comps.append(Agg('Component', 2, ()))    # CurDir (only leading)
